@@ -77,6 +77,7 @@ Definition sv_equiv1 (a b : sortval) : bool :=
     match sty a, sty b with
     | TInt, TInt | TInt, TBool | TBool, TBool | TBool, TInt => sint a =? sint b
     | TFloat, TFloat => (is_nan (sflt a) && is_nan (sflt b)) || PrimFloat.eqb (sflt a) (sflt b)
+    | TInt, TFloat | TFloat, TInt => PrimFloat.eqb (sflt a) (sflt b)
     | TDt, TDt => sdt a =? sdt b
     | TStr, TStr => str_eqb (stxt a) (stxt b)
     | TNull, TNull => true
